@@ -351,3 +351,26 @@ Fixpoint run_given (small : N) (d3 d4 : bool) (heads : list (option head_in)) (b
       (m, fst bs ++ snd bs) ::
       (if cont then run_given small d3 d4 t (fst bs) (snd bs) (tl splits) (tl scheds) else [])
   end.
+
+(* ---- what the request handler of a real server gets to see (handle_http_conn_once): a message
+   reaches the handler unless reading the request or its small known-length body fails; the body
+   is handed over in memory only when its length is known and <= small_body_len, otherwise the
+   handler sees a pending body (and, answering without fetching it, ends the connection). ---- *)
+Inductive seen_body := SbNone | SbVec (b : bytes) | SbPending.
+Definition handler_call {head} (m : msg_result head) : option (bytes * option N * seen_body) :=
+  match m with
+  | MReq _ r br =>
+      match rq_body r, br with
+      | BodyEmpty, _ => Some (rq_method r, rq_clen r, SbNone)
+      | PendingUnknown, _ => Some (rq_method r, rq_clen r, SbPending)
+      | PendingKnown _, BrVec b => Some (rq_method r, rq_clen r, SbVec b)
+      | PendingKnown _, BrDeferred => Some (rq_method r, rq_clen r, SbPending)
+      | PendingKnown _, _ => None          (* read_body_to_vec failed: error response, no handler call *)
+      end
+  | _ => None
+  end.
+Fixpoint handler_log {head} (ms : list (msg_result head)) : list (bytes * option N * seen_body) :=
+  match ms with
+  | [] => []
+  | m :: t => match handler_call m with Some c => c :: handler_log t | None => handler_log t end
+  end.
